@@ -297,6 +297,8 @@ def execute(W, op, how):
             kw['predecessors'] = materialise(W, pr, how.get('fpr', 'list'))
         if how.get('bad_kw'):
             kw[how['bad_kw']] = None
+        if how.get('bad_est'):
+            kw[how['bad_est']] = -1
         W.reg(Task(as_id(i, how), **kw))
     elif k == 'NewWbs':
         w = WBS()
@@ -823,6 +825,9 @@ class Gen:
             # a custom attribute (Task(..., **kwargs)) whose name is a read-only property of Task: the constructor raises
             # AttributeError - after the relations were set.  Nothing may stay attached (judged in graph_common).
             how['bad_kw'] = ['wbs', 'all_children', 'all_parents', 'all_predecessors'][(self.made_tasks + i) % 4]
+        elif random.Random('%s/est/%s/%s' % (getattr(self, 'seed_text', ''), self.made_tasks, i)).random() < 0.1:
+            # a negative estimate / spent together with relations: the constructor raises RuntimeError - nothing may stay attached
+            how['bad_est'] = ['estimate', 'spent'][(self.made_tasks + i) % 2]
         return ['NewTaskRel', i, nm, p, ch, su, pr], how
 
     # ---- mutations ----
